@@ -912,6 +912,35 @@ fn isect_and_select(s: &mut Session, rng: &mut Rng, sc: &Scenario, ndefs: usize,
                         if let Ok(Some(es)) = es {
                             let want = spec_offer(&es, &d);
                             s.oracle("format2-offer-equals-declarative-spec", got == want, input, || format!("table={} offered bits={got:?} spec bits={want:?}", if iftx { "IFTX" } else { "IFT" }));
+                            // recorded intersection sizes of invalidating entries = sizes of the set intersections
+                            for (u, _) in v.iter().filter(|(u, _)| u.is_iftx == iftx && fmt_number(&u.encoding) != 3) {
+                                let Some((ix, e)) = es.iter().enumerate().find(|(_, e)| e.uri.application_flag_bit_index == u.application_flag_bit_index) else { continue };
+                                let sd = &e.subset_definition;
+                                let n_cp = sd.codepoints.iter().filter(|c| d.codepoints.contains(*c)).count() as u64;
+                                let n_ft = match (&sd.feature_tags, &d.feature_tags) {
+                                    (FeatureSet::Set(a), FeatureSet::Set(b)) => a.iter().filter(|t| b.contains(*t)).count(),
+                                    (FeatureSet::Set(a), FeatureSet::All) => a.len(),
+                                    _ => usize::MAX,
+                                };
+                                let mut n_ds: Vec<(u32, i32)> = match (&sd.design_space, &d.design_space) {
+                                    (DesignSpace::Ranges(a), DesignSpace::Ranges(b)) => a.iter().filter_map(|(t, ea)| {
+                                        let db = b.get(t)?;
+                                        let mut total: i64 = 0; let mut any = false;
+                                        for x in ea.iter() { for y in db.iter() {
+                                            let lo = (*x.start()).max(*y.start()); let hi = (*x.end()).min(*y.end());
+                                            if lo <= hi { any = true; total += hi.to_bits() as i64 - lo.to_bits() as i64; }
+                                        } }
+                                        if any { Some((tagnum(*t), total as i32)) } else { None }
+                                    }).collect(),
+                                    (DesignSpace::Ranges(a), DesignSpace::All) => a.iter().map(|(t, ea)| (tagnum(*t), ea.iter().map(|x| x.end().to_bits() as i64 - x.start().to_bits() as i64).sum::<i64>() as i32)).collect(),
+                                    _ => vec![],
+                                };
+                                n_ds.sort();
+                                let got_ds: Vec<(u32, i32)> = u.intersecting_design_space.iter().map(|(t, f)| (tagnum(*t), f.to_bits())).collect();
+                                let ok = u.intersecting_codepoints == n_cp && u.intersecting_layout_tags == n_ft && got_ds == n_ds && u.entry_order == ix;
+                                s.oracle("intersection-info-equals-set-intersection-sizes", ok, input,
+                                    || format!("entry {ix}: recorded {}/{}/{:?}/{} expected {n_cp}/{n_ft}/{n_ds:?}/{ix}", u.intersecting_codepoints, u.intersecting_layout_tags, got_ds, u.entry_order));
+                            }
                             if !want.is_empty() { s.count("spec:nonempty"); }
                             if es.iter().any(|e| e.ignored && !e.child_indices.is_empty()) { s.count("spec:ignored-with-children"); }
                         } else {
